@@ -267,6 +267,7 @@ def worker_main(check_name, fn, default_tier="quick"):
             "sim_time_ns": 0, "faults": {}, "probes": {}, "violations": [], "infra": [], "samples": [], "wall_s": 0, "race": False}
     classes = {}
     hashes = open(out + ".hashes", "w") if out else None
+    dump = open(env["VERIF_DUMP_HASHES"], "w") if env.get("VERIF_DUMP_HASHES") else None
     for run in range(lo, hi):
         if max_wall and time.time() - t0 > max_wall:
             summ["infra"].append("watchdog: stopped at run %d" % run)
@@ -274,6 +275,9 @@ def worker_main(check_name, fn, default_tier="quick"):
         keep = len(summ["samples"]) < 3 and run - lo < 3
         r = execute(Tape(seed=run_seed(seed, check_name, run)), keep)
         summ["runs"] += 1
+        if dump:
+            dump.write("%d %s %s %d\n" % (run, r.h.hexdigest()[:16], r.verdict, len(r.tape.recorded())))
+            dump.flush()
         summ["events"] += r.events
         summ["sim_time_ns"] += r.sim_time_ns
         for k, v in r.faults.items():
